@@ -189,7 +189,10 @@ impl BitEnc {
                 // The take(n) assures this iterator stops before
                 // an overflow of n can occur, if less symbols are
                 // added than open slots in the block.
-                for bit in (bit..32).step_by(self.width).take(n) {
+                for bit in (bit..self.usable_bits_per_block)
+                    .step_by(self.width)
+                    .take(n)
+                {
                     self.set_by_addr(block, bit, value);
                     n -= 1;
                     self.len += 1;
@@ -205,7 +208,7 @@ impl BitEnc {
             // as many copies of value as possible.
             let mut value_block = 0;
             {
-                let mut v = u32::from(value);
+                let mut v = u32::from(value) & self.mask;
                 for _ in 0..32 / self.width {
                     value_block |= v;
                     v <<= self.width;
